@@ -663,10 +663,27 @@ def direct_from_meshio(c):
         return "error: " + str(e)[:60]
 
 
+def corpus_stream(ctx):
+    """minimised past failures (corpus/C07/*.json), always first"""
+    import glob
+    import json
+    for k, fn in enumerate(sorted(glob.glob(str(lib.VERIF / "corpus" / "C07" / "*.json")))):
+        case = json.load(open(fn)).get("case") or {}
+        if "grid" not in case:
+            continue
+        if case.get("stream") == "hybrid":
+            run_hybrid(ctx, case["grid"], f"c{k}", case.get("cfg") or dict(fmt="ascii"))
+        else:
+            run_grid(ctx, case["grid"], f"c{k}", case["choices"])
+        ctx.case({"corpus": os.path.basename(fn)}, True)
+        ctx.count("corpus cases")
+
+
 def run(ctx):
     ctx.prove()
     rng = ctx.rng
     quick = ctx.tier == "quick"
+    corpus_stream(ctx)
     n_grid = 560 if quick else 9000
     n_hyb = 320 if quick else 3000
     subsets = [s for r in (1, 2, 3) for s in itertools.combinations(range(3), r)]
@@ -740,6 +757,8 @@ def run(ctx):
                           impl=im, model=mo)
         ctx.tie("T2 from_meshio vs Model.Structured.from_meshio_" + ("fixed" if REPAIRED["F-C07b"] else "pinned"))
     ctx.extra["model_variant"] = {k: ("repaired" if v else "pinned") for k, v in REPAIRED.items()}
+    import json
+    ctx.violations.sort(key=lambda v: len(json.dumps(v.get("case"), default=str)))      # the smallest failing case of each kind is the replay
     ctx.rule = ("grids with extents 0-3 per axis in every non-empty subset of meshed directions (each subset forced 10 times), image grids "
                 "with dyadic origin/spacing and identity or signed axis-permuting direction matrices, rectilinear grids with monotone "
                 "ordinates, curvilinear point sets; 1-2 point fields and 0-2 cell fields (float64/float32/int32/int64, 1 or 3 components); "
